@@ -76,7 +76,7 @@ def bridge_coverage():
             return ["<list of translated functions missing in %s.lean>" % f]
         names += re.findall(r'"([^"]+)"', m.group(1))
     txt = ""
-    for b in ("BridgeBits", "Bridge", "BridgeRat", "BridgeCpr", "BridgePlane", "BridgeTable"):
+    for b in ("BridgeBits", "BridgeReminder", "Bridge", "BridgeRat", "BridgeCpr", "BridgePlane", "BridgeTable"):
         txt += open(os.path.join(LEAN, "SqModel", "Proofs", b + ".lean"), encoding="utf-8").read()
     return [n for n in names if not re.search(re.escape(n) + r"(?![A-Za-z0-9_])", txt)]
 
@@ -87,7 +87,7 @@ def safe_coverage():
     if not m:
         return ["<list of safety propositions missing in TransSafe.lean>"]
     names = re.findall(r'"([^"]+)"', m.group(1))
-    txt = "".join(open(os.path.join(LEAN, "SqModel", "Proofs", f), encoding="utf-8").read() for f in ("Safe.lean", "SafeCpr.lean"))
+    txt = "".join(open(os.path.join(LEAN, "SqModel", "Proofs", f), encoding="utf-8").read() for f in ("Safe.lean", "SafeCpr.lean", "SafeReminder.lean"))
     return [n for n in names if not re.search(re.escape(n) + r"(?![A-Za-z0-9_])", txt)]
 
 def lean_forbidden_tokens():
